@@ -6,7 +6,7 @@ CHECKS = {
  "C01": ("exploration", "Tens of thousands of compress cases (one-shot and streaming, all levels/flush modes/wrappers/window sizes/table kinds/level-buffer sizes) under 11 simulated CPU levels through the real resolvers; every produced stream must be accepted by an independent RFC decoder and by zlib, reproduce the input and be consumed to its last byte incl. trailer; hist8k and LONGER_HUFFTABLE builds included.",
          "trusts the independent reference inflate (cross-checked against zlib) and zlib; contexts/level_buf at malloc-grade alignment",
          "runtime differential oracle (independent inflate + zlib) over generated inputs/parameters/CPU levels, guard-page buffers, context invariants"),
- "C10": ("exploration", "One-shot calls with avail_out swept around the independently computed stored-block bound and tiny sizes with the output ending at a guard page; success must be a complete stream within the bound, failure must be STATELESS_OVERFLOW; streaming termination under 1..7-byte output chunks; invalid level/flush/level_buf refused before any output.",
+ "C10": ("exploration", "One-shot calls with avail_out swept around the independently computed stored-block bound and tiny sizes with the output ending at a guard page; success must be a complete stream within the bound, failure must be STATELESS_OVERFLOW; streaming termination under 1..7-byte output chunks; invalid level/flush/level_buf refused before any output (fresh stream and second call of a started stream); every avail_out for small, constant and constant-run-first inputs; stored-size boundaries at multiples of 65535/65536; thorough tier: streams of 2^32 + delta bytes decoded on the fly by zlib (32-bit counters wrap).",
          "bound formula from the property text; undersized level_buf may be reported with either documented error code",
          "runtime monitor of the output-space contract (guard pages, counters, bound oracle), bounded-progress monitor, invalid-parameter injection"),
  "C14": ("exploration", "Event-log monitor over streaming histories with scripted flush requests: at every completed flush call the output must end 00 00 FF FF in ZSTATE_NEW_HDR and decode (reference, prefix mode) to exactly the input fed so far; every completed FULL flush suffix is decoded in isolation (also when the completing FULL call brought no input and added no output); flush calls of the other type without input are issued after completed flushes; one-shot FULL_FLUSH chains are concatenated and decoded.",
@@ -73,6 +73,7 @@ ENGINES = [
  ("eng_hdr", "harness/eng_hdr.c", ["C19", "C05"], "gzip/zlib header writers and readers vs independent codec; chunking, overflow resume, arbitrary bytes"),
  ("eng_disp", "harness/eng_disp.c", ["C16"], "resolvers under simulated CPUID/XGETBV, API battery under the trap-flag instruction tracer; driver vlib/disp.py classifies executed instructions"),
  ("eng_thr", "harness/eng_thr.c", ["C15"], "API scenarios with digests: prefill/address/reuse differential, read-only library pages with 16 threads, racing cold starts, TSan workload"),
+ ("eng_big", "harness/eng_big.c", ["C10"], "thorough tier: compression streams of 2^32 + delta bytes at levels 0-3 under four CPU levels, decoded on the fly by zlib; counters modulo 2^32; bounded termination"),
  ("eng_gfmath", "harness/eng_gfmath.c", ["C09", "C12"], "scalar GF arithmetic (exhaustive), inversion, generators, erasure patterns"),
 ]
 WIP = "check not registered yet (implementation in progress; the technique applies - see DESIGN.md section 3)"
